@@ -112,6 +112,16 @@ MUTANTS: List[Tuple[str, List[Tuple[str, str, str]], List[Tuple[str, str]]]] = [
     ('rt3-default-without-kwargs', [(M, "                    if node.use_default:\n                        return run_node_default(node, **kwargs)\n\n                    raise error", "                    if node.use_default:\n                        return run_node_default(node)\n\n                    raise error")], [('C12', 'RT-3')]),
     ('rt4-no-sleep', [(M, "                await asyncio.sleep(retry_policy.delay)", "                pass")], [('C12', 'RT-4')]),
     ('rt5-counter-from-zero', [(M, "        n_attempts = 1\n", "        n_attempts = 0\n")], [('C12', 'RT-5')]),
+    ('rt5-compare-gt', [(M, "                if n_attempts == retry_policy.attempts:", "                if n_attempts > retry_policy.attempts:")], [('C12', 'RT-5')]),
+    ('rt5-increment-twice', [(M, "                n_attempts += 1\n                await asyncio.sleep(retry_policy.delay)", "                n_attempts += 1\n                await asyncio.sleep(retry_policy.delay)\n                n_attempts += 1")], [('C12', 'RT-5')]),
+    ('rt5-increment-before-test', [(M, "                if n_attempts == retry_policy.attempts:\n", "                n_attempts += 1\n                if n_attempts == retry_policy.attempts:\n"),
+                                   (M, "                n_attempts += 1\n                await asyncio.sleep(retry_policy.delay)", "                await asyncio.sleep(retry_policy.delay)")], [('C12', 'RT-5')]),
+    ('rt5-count-from-zero', [(M, "        n_attempts = 1\n        while True:", "        for n_attempts in itertools.count():"),
+                             (M, "                n_attempts += 1\n                await asyncio.sleep(retry_policy.delay)", "                await asyncio.sleep(retry_policy.delay)"),
+                             (M, "import functools\n", "import functools\nimport itertools\n")], [('C12', 'RT-5')]),
+    ('rt5-exhaustion-falls-through', [(M, "                    if node.use_default:\n                        return run_node_default(node, **kwargs)\n\n                    raise error\n\n                await self.ctx.emit_on_node_complete",
+                                          "                    if node.use_default:\n                        return run_node_default(node, **kwargs)\n\n                await self.ctx.emit_on_node_complete")], [('C12', 'RT-5')]),
+    ('rt5-inverted-test', [(M, "                if n_attempts == retry_policy.attempts:", "                if n_attempts != retry_policy.attempts:")], [('C12', 'RT-5')]),
     ('rt6-default-without-opt-in', [(M, "            except Exception:\n                if node.use_default:\n                    return run_node_default(node, **kwargs)\n\n                raise", "            except Exception:\n                return run_node_default(node, **kwargs)")], [('C12', 'RT-6')]),
     ('ev1-complete-before-run', [(C, "        await ctx.emit_on_pipeline_start()\n", "        await ctx.emit_on_pipeline_start()\n        await ctx.emit_on_pipeline_complete(result=None)\n")], [('C14', 'EV-1')]),
     ('ev1-error-path-no-complete', [(C, "            result = PipelineResult(pipeline_id=pipeline_id, value=None, error=ex)\n            await ctx.emit_on_pipeline_complete(result=result)\n", "            result = PipelineResult(pipeline_id=pipeline_id, value=None, error=ex)\n")], [('C14', 'EV-1')]),
@@ -166,6 +176,14 @@ ALL_PROPS = [f'C{n:02d}' for n in range(2, 21)]
 
 # (id, [(file, old, new, replace_all)])
 BENIGN: List[Tuple[str, List[Tuple[str, str, str, bool]]]] = [
+    ('retry-count-loop', [(M, "        n_attempts = 1\n        while True:", "        for n_attempts in itertools.count(1):", False),
+                          (M, "                n_attempts += 1\n                await asyncio.sleep(retry_policy.delay)", "                await asyncio.sleep(retry_policy.delay)", False),
+                          (M, "import functools\n", "import functools\nimport itertools\n", False)]),
+    ('retry-shifted-counter', [(M, "        n_attempts = 1\n        while True:", "        n_attempts = 0\n        while True:", False),
+                               (M, "                if n_attempts == retry_policy.attempts:\n", "                n_attempts += 1\n                if n_attempts >= retry_policy.attempts:\n", False),
+                               (M, "                n_attempts += 1\n                await asyncio.sleep(retry_policy.delay)", "                await asyncio.sleep(retry_policy.delay)", False)]),
+    ('retry-attempts-left-test', [(M, "                if n_attempts == retry_policy.attempts:\n\n                    if node.use_default:\n                        return run_node_default(node, **kwargs)\n\n                    raise error\n\n                await self.ctx.emit_on_node_complete(node_id=node_id, error=error)\n\n                n_attempts += 1\n                await asyncio.sleep(retry_policy.delay)\n",
+                                     "                if n_attempts < retry_policy.attempts:\n                    await self.ctx.emit_on_node_complete(node_id=node_id, error=error)\n                    n_attempts += 1\n                    await asyncio.sleep(retry_policy.delay)\n                    continue\n\n                if node.use_default:\n                    return run_node_default(node, **kwargs)\n\n                raise error\n", False)]),
     ('rename-unlock-descendants', [(M, '__unlock_descendants', '__notify_children', True)]),
     ('rename-run-node', [(M, '_run_node', '_run_single_node', True)]),
     ('rename-get-descendants', [(M, '__get_descendants', '__descendants_of', True)]),
